@@ -307,9 +307,12 @@ class _Ctx:
 
 def run_dag(case, p=None):  # noqa: C901, PLR0912, PLR0915
     spec, s_list, given = case["spec"], case["S"], list(case["I"])
+
     g = view(spec, "dag")
     names = _flat(s_list)
     cx = _Ctx("dag", g, names, given, s_list)
+    if spec.get("deco") == "two-defaults-on-one-produced-name" and "o0" in given and {"o1", "o2"} <= set(names):
+        return cx  # both consumers kept with their producer cut away: o0 is then a root with two defaults (ill-formed by the library's rule)
     prod = producers(g)
     if p is None:
         p = gen_dag.build(spec)
@@ -557,6 +560,11 @@ def dag_specs(stage):  # noqa: C901, PLR0912
         yield from gen_dag.base_specs(2)
     elif stage == "dag-N2-three-output-producer":
         yield from gen_dag.tri_output_specs()
+        # two consumers of ONE produced name that declare DIFFERENT signature defaults for it (never used in the full pipeline;
+        # a selection that cuts the producer away and keeps one consumer is valid)
+        yield {"funcs": [{"name": "f0", "params": ["x"], "outs": ["o0"]},
+                         {"name": "f1", "params": ["o0"], "outs": ["o1"], "sigdef": {"o0": "d1"}},
+                         {"name": "f2", "params": ["o0", "y"], "outs": ["o2"], "sigdef": {"o0": "d2"}}], "deco": "two-defaults-on-one-produced-name"}
     elif stage == "dag-N2-decorated":
         for s in gen_dag.base_specs(2):
             for d in gen_dag.decorations(s):
